@@ -1,4 +1,145 @@
+import EE.Lemmas.Triple
+import EE.Lemmas.Tie
 import EE.Model.Program
+/-! # C08 — names and operators dispatch to the handler and binding last registered
+
+Registries are association lists with the most recent registration first (`HashMap::insert`
+replaces: looking a name up returns the last value inserted for it). A registration history is a
+list of `(name, value)` insertions applied in order. -/
 namespace EE.Props.C08
-theorem placeholder : True := trivial
+open EE EngineM
+
+variable {σ : Type}
+
+/-- Apply a history of insertions (oldest first) to a registry table. -/
+def replay {β : Type} (base : List (Name × β)) (hist : List (Name × β)) : List (Name × β) :=
+  hist.foldl (fun acc e => e :: acc) base
+
+theorem replay_append {β : Type} (base : List (Name × β)) (h1 h2 : List (Name × β)) :
+    replay base (h1 ++ h2) = replay (replay base h1) h2 := by
+  simp [replay, List.foldl_append]
+
+/-- **Last registration wins**, for any history: looking `n` up after a history returns the value
+of the last insertion for `n` in the history, and what the table had before when there is none
+(in particular a built-in, unless overridden — before or after first use makes no difference). -/
+theorem getLast?_cons_of {α : Type} (a : α) (l : List α) :
+    (a :: l).getLast? = match l.getLast? with | some x => some x | none => some a := by
+  cases l with
+  | nil => rfl
+  | cons b t =>
+    rw [List.getLast?_cons_cons]
+    cases h : (b :: t).getLast? with
+    | none => simp at h
+    | some x => rfl
+
+theorem last_wins {β : Type} (base : List (Name × β)) (hist : List (Name × β)) (n : Name) :
+    alookup n (replay base hist) =
+      match (hist.filter (fun e => e.1 = n)).getLast? with
+      | some e => some e.2
+      | none => alookup n base := by
+  induction hist generalizing base with
+  | nil => simp [replay]
+  | cons e hist ih =>
+    obtain ⟨k, v⟩ := e
+    have hr : replay base ((k, v) :: hist) = replay ((k, v) :: base) hist := rfl
+    rw [hr, ih ((k, v) :: base)]
+    by_cases he : k = n
+    · simp only [List.filter_cons, he, decide_true, if_true, getLast?_cons_of]
+      cases (List.filter (fun e => decide (e.1 = n)) hist).getLast? with
+      | none => simp [alookup_cons, he]
+      | some x => rfl
+    · simp only [List.filter_cons, he, decide_false, Bool.false_eq_true, if_false]
+      cases (List.filter (fun e => decide (e.1 = n)) hist).getLast? with
+      | none => simp [alookup_cons, he]
+      | some x => rfl
+
+/-- A user registration made after initialisation is found, whatever the built-in table holds:
+an override of a built-in survives. -/
+theorem override_builtin (n : Name) (h : HandlerId) : alookup n (Regs.builtin.regFn n h).fns = some h := by
+  simp [Regs.regFn, alookup_cons]
+
+theorem reregistration (r : Regs) (n : Name) (h h' : HandlerId) :
+    alookup n ((r.regFn n h).regFn n h').fns = some h' ∧
+    alookup n ((r.regPrefix n h).regPrefix n h').pre = some h' ∧
+    alookup n ((r.regPostfix n h).regPostfix n h').post = some h' := by
+  simp [Regs.regFn, Regs.regPrefix, Regs.regPostfix, alookup_cons]
+
+/-- Registering one name leaves every other name's binding unchanged. -/
+theorem other_names_unchanged (r : Regs) (n m : Name) (h : HandlerId) (hne : n ≠ m) :
+    alookup m (r.regFn n h).fns = alookup m r.fns := by
+  simp [Regs.regFn, alookup_cons, hne]
+
+/-- A registered infix operator is immediately an operator for the tokenizer and the parser, with
+exactly the precedence and associativity it was registered with. -/
+theorem registered_infix_visible (r : Regs) (n : Name) (c : InfixCfg) :
+    (r.regInfix n c).isOp n = true ∧ (r.regInfix n c).isInfix n = true ∧
+    (r.regInfix n c).bp n = (2 * c.prec, if c.right then 2 * c.prec - 1 else 2 * c.prec + 1) := by
+  simp [Regs.regInfix, Regs.isOp, Regs.isInfix, Regs.bp, alookup_cons]
+
+/-- **Binding powers decide exactly by precedence, then associativity** — for all positive
+precedences, adjacent ones included, with no overflow (binding powers are computed in 64 bits;
+here unbounded integers, and `|2p ± 1| < 2^63` for every 32-bit `p`).
+An operator `o'` continues the right operand of `o` iff `rbp o < lbp o'`. -/
+theorem bp_sound (p p' : Int) (right : Bool) (hp : 0 < p) (hp' : 0 < p') :
+    let rbp := if right then 2 * p - 1 else 2 * p + 1
+    (rbp < 2 * p' ↔ (p < p' ∨ (p = p' ∧ right = true))) := by
+  cases right <;> simp <;> omega
+
+theorem bp_fits_i64 (p : Int) (h : -2147483648 ≤ p ∧ p ≤ 2147483647) :
+    -9223372036854775808 ≤ 2 * p - 1 ∧ 2 * p + 1 ≤ 9223372036854775807 := by omega
+
+/-- The left and right binding powers of two operators never coincide (so the strict comparison
+in the recursion gate and the non-strict one in the loop agree). -/
+theorem lbp_ne_rbp (p p' : Int) (right : Bool) : 2 * p' ≠ (if right then 2 * p - 1 else 2 * p + 1) := by
+  cases right <;> simp <;> omega
+
+/-! ## Call dispatch: context function, else global function, else error -/
+
+theorem call_dispatch_ctx (inv : Inv σ) (f : Name) (args : List AST) (w w1 : World σ) (vs : List Value) (h : HandlerId)
+    (hargs : execList inv args w = (.ok vs, w1)) (hc : w1.Clean) (hf : alookup f w1.ctx = some (.fn h)) :
+    exec inv (.call f args) w = invoke inv h vs w1 := by
+  have hgf : ctxGetFunc f w1 = (.ok (some h), w1) := by
+    simp only [ctxGetFunc, bind'_ok (ctxGet_clean hc), hf]; rfl
+  simp only [exec, bind'_ok hargs, bind'_ok hgf]
+
+theorem call_dispatch_global (inv : Inv σ) (f : Name) (args : List AST) (w w1 : World σ) (vs : List Value) (h : HandlerId)
+    (hargs : execList inv args w = (.ok vs, w1)) (hc : w1.Clean)
+    (hf : ∀ h', alookup f w1.ctx ≠ some (.fn h')) (hg : alookup f w1.regs.fns = some h) :
+    exec inv (.call f args) w = invoke inv h vs w1 := by
+  have hgf : ctxGetFunc f w1 = (.ok none, w1) := by
+    simp only [ctxGetFunc, bind'_ok (ctxGet_clean hc)]
+    cases hl : alookup f w1.ctx with
+    | none => rfl
+    | some cv => cases cv with
+      | var v => rfl
+      | fn h' => exact absurd hl (hf h')
+  simp only [exec, bind'_ok hargs, bind'_ok hgf, bind'_ok (lookupE_some hc hg)]
+
+theorem call_dispatch_none (inv : Inv σ) (f : Name) (args : List AST) (w w1 : World σ) (vs : List Value)
+    (hargs : execList inv args w = (.ok vs, w1)) (hc : w1.Clean)
+    (hf : ∀ h', alookup f w1.ctx ≠ some (.fn h')) (hg : alookup f w1.regs.fns = none) :
+    exec inv (.call f args) w = (.err .innerFunctionNotRegistered, w1) := by
+  have hgf : ctxGetFunc f w1 = (.ok none, w1) := by
+    simp only [ctxGetFunc, bind'_ok (ctxGet_clean hc)]
+    cases hl : alookup f w1.ctx with
+    | none => rfl
+    | some cv => cases cv with
+      | var v => rfl
+      | fn h' => exact absurd hl (hf h')
+  simp only [exec, bind'_ok hargs, bind'_ok hgf, bind'_err (lookupE_none hc hg)]
+
+/-- Operators dispatch to the handler currently registered under their name. -/
+theorem unary_dispatch (inv : Inv σ) (op : Name) (rhs : AST) (w w1 : World σ) (v : Value) (h : HandlerId)
+    (hc : w.Clean) (hreg : alookup op w.regs.pre = some h) (hr : exec inv rhs w = (.ok v, w1)) :
+    exec inv (.unary op rhs) w = invoke inv h [v] w1 := by
+  simp only [exec, bind'_ok (lookupE_some hc hreg), bind'_ok hr]
+
+/-- Tie: every public entry point that can reach a registry initialises first (so lazily
+registered built-ins can never overwrite a user registration). -/
+theorem entries_init_first : ∀ e ∈ Gen.entryPoints, e.2.2 = true → e.2.1 = true := EE.Tie.entries_init_first
+
+/-! Non-vacuity: adjacent precedences 110 / 111. -/
+example : (let rbp : Int := 2 * 110 + 1; rbp < 2 * 111) := by decide
+example : alookup ['g'] (replay ([] : List (Name × Nat)) [(['g'], 1), (['h'], 5), (['g'], 2)]) = some 2 := by decide
+
 end EE.Props.C08
